@@ -23,6 +23,7 @@ type Parked struct {
 	Site    string
 	N       int
 	Idle    bool // probed, nothing was ready; re-enabled after the next step that changes anything
+	Yield   bool // parked at a yield point (channel operation / goroutine start), not at a select
 	release chan []int
 }
 
@@ -34,6 +35,8 @@ type Sched struct {
 	OnPick  func(name, site string, picked int)
 	Picks   int
 	Blocked int
+	NoYield bool // yield points inactive (only rewritten selects are scheduling points)
+	goSeq   int
 }
 
 // S is the active scheduler; nil = simulator inactive (the code behaves as written).
@@ -83,7 +86,7 @@ func Order(site string, n int) []int {
 		p = &Parked{Name: name, release: make(chan []int)}
 		s.parked[name] = p
 	}
-	p.Site, p.N = site, n
+	p.Site, p.N, p.Yield = site, n, false
 	s.mu.Unlock()
 	return <-p.release // durable block: the scheduler decides when this goroutine continues
 }
@@ -218,4 +221,79 @@ func TrySend[T any](c chan<- T, v T) bool {
 	default:
 		return false
 	}
+}
+
+// ---------------------------------------------------------------------------------
+// yield points inserted by simgen pass 1
+
+// Register makes the calling goroutine known to the scheduler under name (harness client
+// goroutines, accept loops): from then on it parks at every yield point.
+func (s *Sched) Register(name string) {
+	id := goid()
+	s.mu.Lock()
+	s.byGoid[id] = name
+	s.mu.Unlock()
+}
+
+// Yield is called before a channel operation outside a select. A goroutine the scheduler
+// knows parks here until it is released; any other goroutine continues at once.
+func Yield(site string) {
+	s := S
+	if s == nil {
+		return
+	}
+	id := goid()
+	s.mu.Lock()
+	name, known := s.byGoid[id]
+	if !known || s.NoYield {
+		s.mu.Unlock()
+		return
+	}
+	p := s.parked[name]
+	if p == nil {
+		p = &Parked{Name: name, release: make(chan []int)}
+		s.parked[name] = p
+	}
+	p.Site, p.N, p.Idle, p.Yield = site, 1, false, true
+	s.mu.Unlock()
+	<-p.release
+}
+
+// NextGoID is evaluated in the parent at a `go func(){...}()` statement: a positive id if
+// the parent is known to the scheduler (its children are scheduled too), else 0.
+func NextGoID(site string) int {
+	s := S
+	if s == nil {
+		return 0
+	}
+	id := goid()
+	s.mu.Lock()
+	defer s.mu.Unlock()
+	if _, known := s.byGoid[id]; !known || s.NoYield {
+		return 0
+	}
+	s.goSeq++
+	return s.goSeq
+}
+
+// YieldStart is the first statement of a goroutine started from a function literal.
+func YieldStart(site string, gid int) {
+	s := S
+	if s == nil || gid == 0 {
+		return
+	}
+	s.mu.Lock()
+	name := site + "#" + strconv.Itoa(gid)
+	s.byGoid[goid()] = name
+	p := &Parked{Name: name, release: make(chan []int), Site: site, N: 1, Yield: true}
+	s.parked[name] = p
+	s.mu.Unlock()
+	<-p.release
+}
+
+// Forget drops a goroutine (it finished); optional.
+func (s *Sched) Forget(name string) {
+	s.mu.Lock()
+	delete(s.parked, name)
+	s.mu.Unlock()
 }
